@@ -5,6 +5,7 @@ package libmem_test
 import (
 	"errors"
 	"fmt"
+	"os"
 	"sort"
 	"testing"
 
@@ -172,6 +173,7 @@ type lmObs struct {
 }
 
 type lmExec struct {
+	foreign   int // violations of the property this run does not decide
 	c         *lmCase
 	a, b      *libmem.Allocator // b: twin that never sees GetOffer; Commit of a fresh offer = Allocate
 	live      map[string]*lmReq
@@ -267,10 +269,23 @@ func (o *lmObs) diff(p *lmObs) string {
 	return ""
 }
 
-func v06(clause, sig, f string, args ...any) *vfkit.Violation {
+// The executor serves two properties. When a run decides one of them
+// (VERIF_PROPERTY), a violation of the other one is counted and the history
+// goes on, so that the property being decided is still judged on every step.
+var lmFocus = os.Getenv("VERIF_PROPERTY")
+
+func (e *lmExec) v06(clause, sig, f string, args ...any) *vfkit.Violation {
+	if lmFocus == "C07" {
+		e.foreign++
+		return nil
+	}
 	return &vfkit.Violation{Property: "C06", Clause: clause, Signature: sig, Detail: fmt.Sprintf(f, args...)}
 }
-func v07(clause, sig, f string, args ...any) *vfkit.Violation {
+func (e *lmExec) v07(clause, sig, f string, args ...any) *vfkit.Violation {
+	if lmFocus == "C06" {
+		e.foreign++
+		return nil
+	}
 	return &vfkit.Violation{Property: "C07", Clause: clause, Signature: sig, Detail: fmt.Sprintf(f, args...)}
 }
 
@@ -321,19 +336,25 @@ func (e *lmExec) checkPlacement(what string, requester string, isNew bool, pre, 
 			if !isZone {
 				sig = "overcommit-on-union-of-zones-that-is-not-itself-a-zone"
 			}
-			return v07("node sets hold no more than their capacity", sig,
-				"after %s: node set %b holds %d > capacity %d; assignments %v", what, s, used, capa, post.zones)
+			if v := e.v07("node sets hold no more than their capacity", sig,
+				"after %s: node set %b holds %d > capacity %d; assignments %v", what, s, used, capa, post.zones); v != nil {
+				return v
+			}
 		}
 	}
 	if z, ok := post.zones[requester]; !ok || z != uint64(retZone) {
-		return v07("returned zone is the assignment", "returned-zone-mismatch", "after %s: returned %b, AssignedZone %b (present=%v)", what, uint64(retZone), z, ok)
+		if v := e.v07("returned zone is the assignment", "returned-zone-mismatch", "after %s: returned %b, AssignedZone %b (present=%v)", what, uint64(retZone), z, ok); v != nil {
+			return v
+		}
 	}
 	r := e.live[requester]
 	z := post.zones[requester]
 	if r.strict {
 		if allowed := e.typeNodes(r.types); z&^allowed != 0 {
-			return v07("strict request assigned only nodes of the requested types", "strict-type-violated",
-				"after %s: %s strict types %03b got zone %b, nodes of those types %b", what, requester, r.types, z, allowed)
+			if v := e.v07("strict request assigned only nodes of the requested types", "strict-type-violated",
+				"after %s: %s strict types %03b got zone %b, nodes of those types %b", what, requester, r.types, z, allowed); v != nil {
+				return v
+			}
 		}
 	}
 	if isNew {
@@ -344,10 +365,14 @@ func (e *lmExec) checkPlacement(what string, requester string, isNew bool, pre, 
 			}
 		}
 		if z&normal == 0 {
-			return v07("newly assigned zone contains a node with normal memory", "no-normal-memory", "after %s: %s zone %b, normal nodes %b", what, requester, z, normal)
+			if v := e.v07("newly assigned zone contains a node with normal memory", "no-normal-memory", "after %s: %s zone %b, normal nodes %b", what, requester, z, normal); v != nil {
+				return v
+			}
 		}
 	} else if pz := pre.zones[requester]; pz&^z != 0 {
-		return v07("re-allocation never removes nodes", "realloc-removed-nodes", "after %s: %s zone %b -> %b", what, requester, pz, z)
+		if v := e.v07("re-allocation never removes nodes", "realloc-removed-nodes", "after %s: %s zone %b -> %b", what, requester, pz, z); v != nil {
+			return v
+		}
 	}
 	// other allocations: only moved to supersets, reservations never, updates exact
 	changed := map[string]uint64{}
@@ -357,30 +382,42 @@ func (e *lmExec) checkPlacement(what string, requester string, isNew bool, pre, 
 		}
 		nz, ok := post.zones[id]
 		if !ok {
-			return v07("existing allocations survive", "allocation-lost", "after %s: %s disappeared", what, id)
+			if v := e.v07("existing allocations survive", "allocation-lost", "after %s: %s disappeared", what, id); v != nil {
+				return v
+			}
 		}
 		if nz != pz {
 			changed[id] = nz
 			if pz&^nz != 0 {
-				return v07("existing allocations only move to supersets", "moved-to-non-superset", "after %s: %s moved %b -> %b", what, id, pz, nz)
+				if v := e.v07("existing allocations only move to supersets", "moved-to-non-superset", "after %s: %s moved %b -> %b", what, id, pz, nz); v != nil {
+					return v
+				}
 			}
 			if e.live[id].prio == int(libmem.Reservation) {
-				return v07("memory reservations are never moved", "reservation-moved", "after %s: reservation %s moved %b -> %b", what, id, pz, nz)
+				if v := e.v07("memory reservations are never moved", "reservation-moved", "after %s: reservation %s moved %b -> %b", what, id, pz, nz); v != nil {
+					return v
+				}
 			}
 			if e.live[id].strict {
 				if allowed := e.typeNodes(e.live[id].types); nz&^allowed != 0 {
-					return v07("strict request assigned only nodes of the requested types", "strict-type-violated-by-move",
-						"after %s: %s strict types %03b moved to %b", what, id, e.live[id].types, nz)
+					if v := e.v07("strict request assigned only nodes of the requested types", "strict-type-violated-by-move",
+						"after %s: %s strict types %03b moved to %b", what, id, e.live[id].types, nz); v != nil {
+						return v
+					}
 				}
 			}
 		}
 	}
 	if len(changed) != len(updates) {
-		return v07("reported moves are exactly the changed assignments", "updates-inexact", "after %s: changed %v, reported %v", what, changed, updates)
+		if v := e.v07("reported moves are exactly the changed assignments", "updates-inexact", "after %s: changed %v, reported %v", what, changed, updates); v != nil {
+			return v
+		}
 	}
 	for id, nz := range changed {
 		if u, ok := updates[id]; !ok || uint64(u) != nz {
-			return v07("reported moves are exactly the changed assignments", "updates-inexact", "after %s: changed %v, reported %v", what, changed, updates)
+			if v := e.v07("reported moves are exactly the changed assignments", "updates-inexact", "after %s: changed %v, reported %v", what, changed, updates); v != nil {
+				return v
+			}
 		}
 	}
 	if len(updates) > 0 {
@@ -459,15 +496,21 @@ func (e *lmExec) run() *vfkit.Violation {
 					e.labels["stale-commit-attempted"] = true
 				}
 				if stale && of.judged && err == nil {
-					return v06("an offer taken before a later successful allocation/re-allocation/release/commit is refused",
-						"stale-offer-accepted", "%s was accepted (zone %b)", what, uint64(zone))
+					if v := e.v06("an offer taken before a later successful allocation/re-allocation/release/commit is refused",
+						"stale-offer-accepted", "%s was accepted (zone %b)", what, uint64(zone)); v != nil {
+						return v
+					}
 				}
 				if !stale && err != nil {
-					return v06("committing a fresh offer succeeds like allocating directly", "fresh-offer-refused", "%s: %v", what, err)
+					if v := e.v06("committing a fresh offer succeeds like allocating directly", "fresh-offer-refused", "%s: %v", what, err); v != nil {
+						return v
+					}
 				}
 				if err != nil {
 					if d := e.observe(e.a).diff(pre); d != "" {
-						return v06("a refused commit leaves the state unchanged", "failed-op-changed-state", "%s: %s", what, d)
+						if v := e.v06("a refused commit leaves the state unchanged", "failed-op-changed-state", "%s: %s", what, d); v != nil {
+							return v
+						}
 					}
 					continue
 				}
@@ -478,13 +521,17 @@ func (e *lmExec) run() *vfkit.Violation {
 			// twin: direct allocation of the same request
 			bz, bu, berr := e.b.Allocate(e.mkReq(rop))
 			if (err == nil) != (berr == nil) || (err == nil && (bz != zone || !sameUpdates(bu, updates))) {
-				return v06("committing a fresh offer gives the same zone and updates as allocating directly; requesting offers never changes later results",
+				if v := e.v06("committing a fresh offer gives the same zone and updates as allocating directly; requesting offers never changes later results",
 					"twin-divergence", "%s: with offers in the history: zone %b updates %v err %v; without: zone %b updates %v err %v",
-					what, uint64(zone), updates, err, uint64(bz), bu, berr)
+					what, uint64(zone), updates, err, uint64(bz), bu, berr); v != nil {
+					return v
+				}
 			}
 			if err != nil {
 				if d := e.observe(e.a).diff(pre); d != "" {
-					return v06("a failed allocation leaves all assignments and usage unchanged", "failed-op-changed-state", "%s failed (%v): %s", what, err, d)
+					if v := e.v06("a failed allocation leaves all assignments and usage unchanged", "failed-op-changed-state", "%s failed (%v): %s", what, err, d); v != nil {
+						return v
+					}
 				}
 				if errors.Is(err, libmem.ErrNoMem) && len(e.live) > 0 {
 					e.nt06 = true
@@ -506,7 +553,9 @@ func (e *lmExec) run() *vfkit.Violation {
 			req := e.mkReq(op)
 			of, err := e.a.GetOffer(req)
 			if d := e.observe(e.a).diff(pre); d != "" {
-				return v06("requesting an offer never changes allocator state", "getoffer-changed-state", "%s (err=%v): %s", what, err, d)
+				if v := e.v06("requesting an offer never changes allocator state", "getoffer-changed-state", "%s (err=%v): %s", what, err, d); v != nil {
+					return v
+				}
 			}
 			if err == nil {
 				e.offers = append(e.offers, &lmOffer{offer: of, op: op, takenAt: e.mutations, judged: true})
@@ -519,13 +568,17 @@ func (e *lmExec) run() *vfkit.Violation {
 			zone, updates, err := e.a.Realloc(id, libmem.NodeMask(op.Aff), libmem.TypeMask(op.Types))
 			bz, bu, berr := e.b.Realloc(id, libmem.NodeMask(op.Aff), libmem.TypeMask(op.Types))
 			if (err == nil) != (berr == nil) || (err == nil && (bz != zone || !sameUpdates(bu, updates))) {
-				return v06("requesting offers never changes later results", "twin-divergence",
-					"%s: with offers: zone %b updates %v err %v; without: zone %b updates %v err %v", what, uint64(zone), updates, err, uint64(bz), bu, berr)
+				if v := e.v06("requesting offers never changes later results", "twin-divergence",
+					"%s: with offers: zone %b updates %v err %v; without: zone %b updates %v err %v", what, uint64(zone), updates, err, uint64(bz), bu, berr); v != nil {
+					return v
+				}
 			}
 			post := e.observe(e.a)
 			if err != nil {
 				if d := post.diff(pre); d != "" {
-					return v06("a failed re-allocation leaves all assignments and usage unchanged", "failed-op-changed-state", "%s failed (%v): %s", what, err, d)
+					if v := e.v06("a failed re-allocation leaves all assignments and usage unchanged", "failed-op-changed-state", "%s failed (%v): %s", what, err, d); v != nil {
+						return v
+					}
 				}
 				if errors.Is(err, libmem.ErrNoMem) {
 					e.nt06 = true
@@ -534,7 +587,9 @@ func (e *lmExec) run() *vfkit.Violation {
 				continue
 			}
 			if !known {
-				return v06("re-allocating an unknown allocation fails", "realloc-unknown-succeeded", "%s", what)
+				if v := e.v06("re-allocating an unknown allocation fails", "realloc-unknown-succeeded", "%s", what); v != nil {
+					return v
+				}
 			}
 			if post.diff(pre) == "" {
 				// successful no-op: the statement does not say whether it outdates offers
@@ -561,20 +616,28 @@ func (e *lmExec) run() *vfkit.Violation {
 			err := e.a.Release(id)
 			berr := e.b.Release(id)
 			if (err == nil) != (berr == nil) {
-				return v06("requesting offers never changes later results", "twin-divergence", "%s: %v vs %v", what, err, berr)
+				if v := e.v06("requesting offers never changes later results", "twin-divergence", "%s: %v vs %v", what, err, berr); v != nil {
+					return v
+				}
 			}
 			post := e.observe(e.a)
 			if err != nil {
 				if known {
-					return v06("releasing a live allocation succeeds", "release-failed", "%s: %v", what, err)
+					if v := e.v06("releasing a live allocation succeeds", "release-failed", "%s: %v", what, err); v != nil {
+						return v
+					}
 				}
 				if d := post.diff(pre); d != "" {
-					return v06("a failed release leaves the state unchanged", "failed-op-changed-state", "%s: %s", what, d)
+					if v := e.v06("a failed release leaves the state unchanged", "failed-op-changed-state", "%s: %s", what, d); v != nil {
+						return v
+					}
 				}
 				continue
 			}
 			if !known {
-				return v06("releasing an unknown allocation fails", "release-unknown-succeeded", "%s", what)
+				if v := e.v06("releasing an unknown allocation fails", "release-unknown-succeeded", "%s", what); v != nil {
+					return v
+				}
 			}
 			// exactly that allocation is gone
 			want := &lmObs{zones: map[string]uint64{}}
@@ -585,11 +648,15 @@ func (e *lmExec) run() *vfkit.Violation {
 			}
 			for k, v := range want.zones {
 				if post.zones[k] != v {
-					return v06("releasing removes that allocation only", "release-touched-others", "%s: %s %b -> %b", what, k, v, post.zones[k])
+					if v := e.v06("releasing removes that allocation only", "release-touched-others", "%s: %s %b -> %b", what, k, v, post.zones[k]); v != nil {
+						return v
+					}
 				}
 			}
 			if len(post.zones) != len(want.zones) {
-				return v06("releasing removes that allocation only", "release-touched-others", "%s: assignments %v -> %v", what, pre.zones, post.zones)
+				if v := e.v06("releasing removes that allocation only", "release-touched-others", "%s: assignments %v -> %v", what, pre.zones, post.zones); v != nil {
+					return v
+				}
 			}
 			sz, z := e.live[id].size, pre.zones[id]
 			var hasMem uint64
@@ -605,11 +672,15 @@ func (e *lmExec) run() *vfkit.Violation {
 					wantU -= sz
 				}
 				if post.usage[s] != wantU {
-					return v06("releasing removes that allocation only", "release-usage-wrong", "%s: usage of node set %b: %d -> %d, expected %d", what, s, pre.usage[s], post.usage[s], wantU)
+					if v := e.v06("releasing removes that allocation only", "release-usage-wrong", "%s: usage of node set %b: %d -> %d, expected %d", what, s, pre.usage[s], post.usage[s], wantU); v != nil {
+						return v
+					}
 				}
 			}
 			if len(post.list) != len(pre.list)-1 {
-				return v06("releasing removes that allocation only", "release-touched-others", "%s: requests %v -> %v", what, pre.list, post.list)
+				if v := e.v06("releasing removes that allocation only", "release-touched-others", "%s: requests %v -> %v", what, pre.list, post.list); v != nil {
+					return v
+				}
 			}
 			delete(e.live, id)
 			e.mutations++
@@ -620,13 +691,17 @@ func (e *lmExec) run() *vfkit.Violation {
 			e.offers = nil // offers straddling a reset are not judged
 			e.mutations++
 			if post := e.observe(e.a); len(post.zones) != 0 || len(post.list) != 0 {
-				return v06("reset releases everything", "reset-left-allocations", "%s: %v", what, post.zones)
+				if v := e.v06("reset releases everything", "reset-left-allocations", "%s: %v", what, post.zones); v != nil {
+					return v
+				}
 			}
 		}
 		// after every operation both twins must be in the same observable state
 		if d := e.observe(e.a).diff(e.observe(e.b)); d != "" {
-			return v06("requesting offers never changes allocator state; commit of a fresh offer equals direct allocation",
-				"twin-state-divergence", "after %s: %s", what, d)
+			if v := e.v06("requesting offers never changes allocator state; commit of a fresh offer equals direct allocation",
+				"twin-state-divergence", "after %s: %s", what, d); v != nil {
+				return v
+			}
 		}
 	}
 	return nil
